@@ -168,8 +168,8 @@ def cut_scenarios(rnd: random.Random, n: int) -> list:
     return out
 
 
-def run_one(steps, tid, configured, rate_limit):
-    w = SystemWorld(configured, rate_limit)
+def run_one(steps, tid, configured, rate_limit, nocache=False):
+    w = SystemWorld(configured, rate_limit, no_adj_rib_out=nocache)
 
     async def d(world):
         await direct(world, steps)
@@ -202,10 +202,12 @@ def judge(lines, label):
 def run_system(ck: Check, scenarios, label: str) -> None:
     lines = []
     meta = {}
-    for tid, (steps, configured, rate) in enumerate(scenarios):
-        ln = run_one(steps, tid, configured, rate)
+    for tid, sc in enumerate(scenarios):
+        steps, configured, rate = sc[:3]
+        nocache = len(sc) > 3 and sc[3]
+        ln = run_one(steps, tid, configured, rate, nocache)
         lines += ln
-        meta[tid] = (steps, configured, rate)
+        meta[tid] = (steps, configured, rate, nocache)
         ck.count({'steps': steps, 'cfg': configured, 'rate': rate})
         if tid in (0, len(scenarios) // 2):
             ck.sample({'steps': steps, 'configured': configured, 'rate_limit': rate, 'log': [{k: v for k, v in e.items() if v not in ('', [], {}) and k != 'tid'} for e in ln[:30]]})
@@ -213,7 +215,9 @@ def run_system(ck: Check, scenarios, label: str) -> None:
     ck.tlc(res, f'Obs_ExaSystem {label}: {len(lines)} lines of {len(scenarios)} peer-level traces')
     ck.cov['traces_validated_against_impl'] = ck.cov.get('traces_validated_against_impl', 0) + len(scenarios)
     for b in bad:
-        steps, configured, rate = meta[b['tid']]
+        steps, configured, rate, nocache = meta[b['tid']]
         for clause in b['clauses']:
             fp = {'clause': clause, 'configured': configured, 'ops': [s.get('name', s['do']) for s in steps]}
-            ck.violation(fp, f'{clause} ({b["e"]}) in peer-level scenario {steps} configured={configured} rate_limit={rate}', {'steps': steps, 'configured': configured, 'rate': rate, 'clause': clause})
+            if nocache:
+                fp['adj-rib-out'] = False
+            ck.violation(fp, f'{clause} ({b["e"]}) in peer-level scenario {steps} configured={configured} rate_limit={rate} adj-rib-out={not nocache}', {'steps': steps, 'configured': configured, 'rate': rate, 'nocache': nocache, 'clause': clause})
